@@ -322,6 +322,9 @@ def run(run, rng):
             # several distinct unsupported structures (e-mail, website, e-mail + digits ...) and several tied counts
             case['items'] = case['items'][:4] + [[e, 1] for e in trainlists.EMAILS[:2] + trainlists.SITES[:2]] + [['bob@gmail.com123', 1], ['!www.google.com', 1], ['x@y.org!', 1]]
             case['items'] = [[p, k] for p, k in case['items'] if trainlists.encodable(p, case['encoding'])]
+        if i % 8 == 2 and case['encoding'] == 'utf-8':
+            # runs of special characters that are not in Unicode normal form C (a combining overlay after `=`, the Greek question mark): the values are those code points
+            case['items'] += [['love=\u0338', 2], ['love#$', 1], ['love;', 1], ['love\u037e', 2], ['x\u0387y', 1]]
         if i % 8 == 5:
             # several distinct values of one category and one length of 32 and more characters (long numbers, rows of symbols)
             d = lambda n: ''.join(rng.choice('0123456789') for _ in range(n))
